@@ -31,17 +31,28 @@ namespace occa {
     }
 
     hash_t device::kernelHash(const occa::json &props) const {
-      return (
-        occa::hash(props["compiler"])
-        ^ props["compiler_flags"]
-        ^ props["compiler_env_script"]
-        ^ props["compiler_vendor"]
-        ^ props["compiler_language"]
-        ^ props["compiler_linker_flags"]
-        ^ props["compiler_shared_flags"]
-        ^ props["include_occa"]
-        ^ props["link_occa"]
-      );
+      // Hash the properties as one object keyed by their names.
+      // XOR-ing the hashes of the bare values gives the same key when two
+      // properties swap values or hold equal values (A ^ B == B ^ A, A ^ A == 0)
+      const char *names[] = {
+        "compiler",
+        "compiler_flags",
+        "compiler_env_script",
+        "compiler_vendor",
+        "compiler_language",
+        "compiler_linker_flags",
+        "compiler_shared_flags",
+        "include_occa",
+        "link_occa"
+      };
+      occa::json keyProps;
+      keyProps.asObject();
+      for (const char *name : names) {
+        if (props.has(name)) {
+          keyProps[name] = props[name];
+        }
+      }
+      return occa::hash(keyProps);
     }
 
     //---[ Stream ]---------------------
